@@ -21,10 +21,10 @@ CRATES = ['jj-lib']
 NATIVE = None
 NATIVE_CONFIRM = False
 BOUNDS = {
-    'quick': 'every commit DAG on <=4 positions (any parent sets incl. octopus merges), operand sets = every subset of the positions; node types: Commits, Ancestors and Range '
+    'quick': 'every commit DAG on <=3 positions (any parent sets incl. octopus merges), operand sets = every subset of the positions (for n=3, Range/DagRange/set operators/FilterWithin use the reduced option set: generation ranges 1..2, 0..2, 2..4, 1.., unbounded; all parents; lazy x lazy operands); node types: Commits, Ancestors and Range '
              '(generation ranges a..b with a<=2, b-a<=2 or unbounded; all parents or first parent only), DagRange (full, children 1..2, ranged), Heads, HeadsRange, Roots, Forks, '
              'ForkPoint, MergePoint, Reachable, Bisect, HasSize, Coalesce, Union/Intersection/Difference over lazy ancestor walks, FilterWithin with Set/NotIn/Union/Intersection predicates',
-    'thorough': 'the same on <=5 positions',
+    'thorough': 'the same on <=4 positions (generation ranges 1..2, 0..2, 2..4, 1.. and unbounded for n=4)',
 }
 ASSUMPTIONS = [
     'the commit index is the abstract segment stack of props/graphstub.py (C18): parents smaller than the commit, generation numbers consistent; commit ids are one byte = the position',
@@ -41,10 +41,11 @@ NODES = ['commits', 'ancestors', 'range', 'dagrange', 'heads', 'headsrange', 'ro
 
 def jobs(tier):
     out = []
-    for n in ((2, 3, 4) if tier == 'quick' else (2, 3, 4, 5)):
+    for n in ((2, 3) if tier == 'quick' else (2, 3, 4)):
         for node in NODES:
             heavy = node in ('ancestors', 'range', 'dagrange', 'setops', 'filter', 'reachable', 'mergepoint', 'headsrange')
-            out.append(dict(name=f'{node}-n{n}', node=node, n=n, rung=0 if n <= 3 else n, weight=(8 if heavy else 4) ** n, split=('enumerate', 6) if n >= 4 or (heavy and n >= 3) else None))
+            slim = n >= 4 or (tier == 'quick' and n == 3 and node in ('range', 'dagrange', 'filter', 'setops'))
+            out.append(dict(name=f'{node}-n{n}' + ('-slim' if slim and n == 3 else ''), node=node, n=n, slim=slim, rung=0 if n <= 3 else n, weight=(8 if heavy else 4) ** n, split=('enumerate', 6 if n <= 3 else 8) if n >= 4 or (heavy and n >= 3) else None))
     return out
 
 def run_job(ix, job, tier):
@@ -79,11 +80,15 @@ def run_job(ix, job, tier):
         pk = paths(prange); return zor([pk[k][s, x] for s in S for k in range(n) if gr[0] <= k < gr[1]])
     def heads_of(inS, x): return z3.And(inS[x], z3.Not(zor([z3.And(inS[y], reach[y, x]) for y in P if y > x])))
     def roots_of(inS, x): return z3.And(inS[x], z3.Not(zor([z3.And(inS[y], reach[x, y]) for y in P if y < x])))
+    SLIM_GEN = [(1, 2), (0, 2), (2, 4), (1, (1 << 64) - 1)]
     def pick_gen(e):
+        if job.get('slim'): return SLIM_GEN[e.choose(len(SLIM_GEN))]
         a = e.choose(3); w = e.choose(4)
         return (a, a + w) if w < 3 else (a, (1 << 64) - 1)
     def pick_gen_or_full(e): return FULLGEN if e.choose(2) == 0 else pick_gen(e)
-    def pick_par(e): return FULLPAR if e.choose(2) == 0 else (0, 1)
+    def pick_par(e):
+        if job.get('slim') and node != 'ancestors': return FULLPAR
+        return FULLPAR if e.choose(2) == 0 else (0, 1)
     T = z3.BoolVal(True)
 
     def build(e):
@@ -150,7 +155,7 @@ def run_job(ix, job, tier):
             return Enum('Coalesce', [box(first), box(commits(B))], RE), {x: z3.If(nonempty, inA[x], z3.BoolVal(x in B)) for x in P}, f'Coalesce({"parents of " if lazy else ""}{A}, {B})'
         if node == 'setops':
             B = subset(e, P); op = ['Union', 'Intersection', 'Difference'][e.choose(3)]
-            k = e.choose(3)        # operand shapes: lazy walk x eager set, eager x lazy, lazy x lazy
+            k = 2 if job.get('slim') else e.choose(3)        # operand shapes: lazy walk x eager set, eager x lazy, lazy x lazy
             la = Enum('Ancestors', [box(commits(A)), r64(*FULLGEN), rng(*FULLPAR)], RE); lb = Enum('Ancestors', [box(commits(B)), r64(1, 3), rng(*FULLPAR)], RE)
             x1, in1 = (la, {x: anc(A, x) for x in P}) if k != 1 else (commits(A), {x: z3.BoolVal(x in A) for x in P})
             x2, in2 = (lb, {x: anc_gen(B, x, (1, 3)) for x in P}) if k != 0 else (commits(B), {x: z3.BoolVal(x in B) for x in P})
